@@ -244,3 +244,68 @@ _run_11 = run
 def run(ctx, rep):
     _run_11(ctx, rep)
     run_slice_cursor(ctx, rep)
+
+
+# ---------------------------------------------------------------------------------------------
+# R11.5  every stream wrapper reports the count its inner stream reported, and hands the caller's buffer through
+
+PASS_THROUGH = ('<fatfs::dir::DirRawStream as fatfs::io::Read>::read', '<fatfs::dir::DirRawStream as fatfs::io::Write>::write',
+                '<fatfs::fs::FsIoAdapter as fatfs::io::Read>::read', '<fatfs::fs::FsIoAdapter as fatfs::io::Write>::write',
+                '<fatfs::io::StdIoWrapper as fatfs::io::Read>::read', '<fatfs::io::StdIoWrapper as fatfs::io::Write>::write',
+                '<fatfs::file::File as fatfs::io::Read>::read', '<fatfs::file::File as fatfs::io::Write>::write',
+                DS_READ)
+INNER = ('fatfs::io::Read::read', 'fatfs::io::Write::write', 'std::io::Read::read', 'std::io::Write::write')
+
+
+def run_pass_through(ctx, rep):
+    """`read_exact` / `write_all` (and every caller that advances a cursor) trust the count a stream returns. For each
+    Read::read / Write::write implementation of the crate: every value returned in `Ok(..)` originates in the count that the
+    inner stream's read / write returned on that path (or is the constant 0 of an early exit with nothing to transfer)."""
+    from rules.c02 import origin, single_def
+    facts = ctx.facts
+    for name in PASS_THROUGH:
+        fn = facts.fns.get(name)
+        if fn is None:
+            if 'StdIoWrapper' in name and ctx.config == 'nostd':
+                continue
+            rep.machinery('ANCHOR-MISSING ' + name)
+            continue
+        devb = {b for b, t in fn.calls() if (t.get('callee') or '') in INNER}
+        defs = single_def(fn)
+        bad = []
+        n_ok = 0
+        for bi in fn.reachable():
+            t = fn.blocks[bi]['term']
+            if t['k'] == 'call' and place_key(t['dest']) == (0, ()):
+                callee = t.get('callee') or ''
+                if bi in devb or callee.endswith(('FromResidual::from_residual', 'Result::map_err', 'Result::map')):
+                    n_ok += bi in devb
+                    continue
+                bad.append((bi, 'the result comes from %s' % callee))
+            for s in fn.blocks[bi]['stmts']:
+                if s['k'] == 'assign' and place_key(s['lhs']) == (0, ()) and s['rv']['k'] == 'agg' and s['rv'].get('variant') == 'Ok':
+                    o = s['rv']['ops'][0]
+                    c = op_const(o)
+                    if c is not None and c.get('val') == 0:
+                        continue
+                    if origin(fn, defs, o, devb, through_casts=True) == 'device-count':
+                        n_ok += 1
+                        continue
+                    bad.append((bi, 'Ok(%s) is not the count the inner stream returned' % s['span']['snip'][:40]))
+        ok = not bad and bool(devb)
+        rep.oblige('R11.5', name, ok=ok, nontrivial=True,
+                   sample={'fn': name, 'inner_calls': len(devb), 'returns_checked': n_ok})
+        if not devb:
+            rep.machinery('ANCHOR %s: no inner read / write call' % name)
+        elif bad:
+            rep.violation('R11.5', vkey('R11.5', name, 'returned-count', ''), fn.loc(fn.blocks[bad[0][0]]['term']['span']),
+                          '%s: %s - callers (read_exact, write_all, cursor updates) would skip or repeat bytes after a short '
+                          'transfer' % (name, bad[0][1]))
+
+
+_run_11b = run
+
+
+def run(ctx, rep):
+    _run_11b(ctx, rep)
+    run_pass_through(ctx, rep)
